@@ -378,10 +378,16 @@ func newGSIBlock(s Subtitles) (g *gsiBlock) {
 			g.creationDate = *s.Metadata.STLCreationDate
 		}
 		g.countryOfOrigin = s.Metadata.STLCountryOfOrigin
-		g.displayStandardCode = s.Metadata.STLDisplayStandardCode
+		// Keep the default value when metadata come from another format
+		if s.Metadata.STLDisplayStandardCode != "" {
+			g.displayStandardCode = s.Metadata.STLDisplayStandardCode
+		}
 		g.editorContactDetails = s.Metadata.STLEditorContactDetails
 		g.editorName = s.Metadata.STLEditorName
-		g.framerate = s.Metadata.Framerate
+		// Keep the default value when the framerate can't be written (e.g. metadata come from another format)
+		if _, ok := stlFramerateMapping.GetInverse(s.Metadata.Framerate); ok {
+			g.framerate = s.Metadata.Framerate
+		}
 		if v, ok := stlLanguageMapping.GetInverse(s.Metadata.Language); ok {
 			g.languageCode = v.(string)
 		}
